@@ -227,27 +227,20 @@ theorem layered_runUser (u : State) (ops : List Op) :
     | true => simp [List.filter_cons, hf, run_cons]
     | false => simp [List.filter_cons, hf]
 
-/-- **Layered under any update history**: system layers `sys` (any dictionaries) and an in-memory user
-    layer that went through the history `ops` of `Layered::{add,update,remove}_phrase`, `flush`, `reopen`.
-    The exact lookup returns each phrase once; a phrase is returned iff a system layer returns it or it
-    is live in the user's map `Map.empty.run (forwarded ops)`; and a live user phrase is reported with
-    at least the user's frequency (the highest across layers, by `layered_union`) -/
-theorem layered_history (sys : List Dict) (ops : List Op) (hok : ∀ op ∈ ops, OpOk op) (k : Key) :
-    let m := Map.empty.run (ops.filter Layered.forwarded)
-    let r := Layered.lookupAll (sys ++ [toDict (Layered.runUser initMem ops)]) k .standard
+/-- `Layered` over system layers `sys` (any dictionaries) and a user layer `u` whose exact lookup of
+    `k` is a correct answer for the map `m`: each phrase once; a phrase is returned iff a system layer
+    returns it or it is live in `m`; a live user phrase is reported with at least the user's frequency
+    (the highest across layers, by `layered_union`) -/
+theorem layered_over_map (sys : List Dict) (u : State) (m : Map) (k : Key)
+    (hlk : IsLookup m k (lookupAll u k .standard)) :
+    let r := Layered.lookupAll (sys ++ [toDict u]) k .standard
     (texts r).Nodup ∧
     (∀ t, t ∈ texts r ↔ (∃ d ∈ sys, t ∈ texts (d.lookup k .standard)) ∨ ∃ v, m (k, t) = some v) ∧
     (∀ t v, m (k, t) = some v → ∃ p ∈ r, p.text = t ∧ v.1 ≤ p.freq) := by
-  intro m r
-  have hok' : ∀ op ∈ ops.filter Layered.forwarded, OpOk op := fun op ho => hok op (List.mem_filter.mp ho).1
-  obtain ⟨habs, hl, _⟩ := mem_answers (ops.filter Layered.forwarded) hok'
-  have hu : Layered.runUser initMem ops = run initMem (ops.filter Layered.forwarded) := layered_runUser _ _
-  obtain ⟨h1, h2, h3, _⟩ := layered_union (sys ++ [toDict (Layered.runUser initMem ops)]) k .standard
-  have hlk : IsLookup m k (lookupAll (Layered.runUser initMem ops) k .standard) := by
-    have := hl k
-    rw [habs, ← hu] at this; exact this
+  intro r
+  obtain ⟨h1, h2, h3, _⟩ := layered_union (sys ++ [toDict u]) k .standard
   -- membership in the user layer's answer = liveness in the map
-  have huser : ∀ t, t ∈ texts (lookupAll (Layered.runUser initMem ops) k .standard) ↔ ∃ v, m (k, t) = some v := by
+  have huser : ∀ t, t ∈ texts (lookupAll u k .standard) ↔ ∃ v, m (k, t) = some v := by
     intro t
     constructor
     · intro ht
@@ -256,6 +249,7 @@ theorem layered_history (sys : List Dict) (ops : List Op) (hok : ∀ op ∈ ops,
     · rintro ⟨v, hv⟩
       obtain ⟨p, hp, e⟩ := hlk.2.2 t v hv
       exact mem_texts.mpr ⟨p, hp, e⟩
+  have hdm : toDict u ∈ sys ++ [toDict u] := List.mem_append.mpr (Or.inr (by simp))
   refine ⟨h1, ?_, ?_⟩
   · intro t
     rw [h2 t]
@@ -268,7 +262,7 @@ theorem layered_history (sys : List Dict) (ops : List Op) (hok : ∀ op ∈ ops,
         exact Or.inr ((huser t).mp ht)
     · rintro (⟨d, hd, ht⟩ | hv)
       · exact ⟨d, List.mem_append.mpr (Or.inl hd), ht⟩
-      · exact ⟨toDict (Layered.runUser initMem ops), List.mem_append.mpr (Or.inr (by simp)), (huser t).mpr hv⟩
+      · exact ⟨toDict u, hdm, (huser t).mpr hv⟩
   · intro t v hv
     obtain ⟨q, hq, eq⟩ := hlk.2.2 t v hv
     have hqv := hlk.2.1 q hq
@@ -276,13 +270,29 @@ theorem layered_history (sys : List Dict) (ops : List Op) (hok : ∀ op ∈ ops,
     have hfreq : q.freq = v.1 := by
       have := congrArg Prod.fst (Option.some.inj hqv)
       simpa [valOf] using this.symm
-    have hdm : toDict (Layered.runUser initMem ops) ∈ sys ++ [toDict (Layered.runUser initMem ops)] :=
-      List.mem_append.mpr (Or.inr (by simp))
     have ht : t ∈ texts r := (h2 t).mpr ⟨_, hdm, mem_texts.mpr ⟨q, hq, eq⟩⟩
     obtain ⟨p, hp, ep⟩ := mem_texts.mp ht
     refine ⟨p, hp, ep, ?_⟩
     have := (h3 p hp).2 _ hdm q hq (by rw [eq, ep])
     rw [hfreq] at this; exact this
+
+/-- **Layered under any update history**: an in-memory user layer that went through the history `ops`
+    of `Layered::{add,update,remove}_phrase`, `flush`, `reopen`; the user's map is
+    `Map.empty.run (forwarded ops)` -/
+theorem layered_history (sys : List Dict) (ops : List Op) (hok : ∀ op ∈ ops, OpOk op) (k : Key) :
+    let m := Map.empty.run (ops.filter Layered.forwarded)
+    let r := Layered.lookupAll (sys ++ [toDict (Layered.runUser initMem ops)]) k .standard
+    (texts r).Nodup ∧
+    (∀ t, t ∈ texts r ↔ (∃ d ∈ sys, t ∈ texts (d.lookup k .standard)) ∨ ∃ v, m (k, t) = some v) ∧
+    (∀ t v, m (k, t) = some v → ∃ p ∈ r, p.text = t ∧ v.1 ≤ p.freq) := by
+  intro m r
+  have hok' : ∀ op ∈ ops.filter Layered.forwarded, OpOk op := fun op ho => hok op (List.mem_filter.mp ho).1
+  obtain ⟨habs, hl, _⟩ := mem_answers (ops.filter Layered.forwarded) hok'
+  have hu : Layered.runUser initMem ops = run initMem (ops.filter Layered.forwarded) := layered_runUser _ _
+  have hlk : IsLookup m k (lookupAll (Layered.runUser initMem ops) k .standard) := by
+    have := hl k
+    rw [habs, ← hu] at this; exact this
+  exact layered_over_map sys _ m k hlk
 
 /-! ## 5. The first n results are the first n of the full result -/
 
@@ -292,7 +302,7 @@ theorem first_n_is_prefix_triebuf (s : State) (k : Key) (n : Nat) (st : Strategy
 theorem first_n_is_prefix_layered (layers : List Dict) (k : List Nat) (n : Nat) (st : Strategy) :
     Layered.lookupFirstN layers k n st = (Layered.lookupAll layers k st).take n := rfl
 
-/-- for `Trie` this needs the final `truncate` of fix 4ff32a2 (F11) and the fact that the early
+/-- for `Trie` this needs the final `truncate` of fix 5ab0621 (F11) and the fact that the early
     `break` only skips leaves beyond the first n phrases -/
 theorem first_n_is_prefix_trie (t : List Leaf) (q : Key) (n : Nat) (st : Strategy) :
     Trie.lookupFirstN t q n st = (Trie.lookupAll t q st).take n := by
@@ -472,6 +482,33 @@ theorem close_open_answers (ops : List Op) (hok : ∀ op ∈ ops, OpOk op) :
     rw [TrieBuf.run_append]; exact settled_closeOpen hf
   refine ⟨?_, settled_answers s h.1 hset⟩
   rw [h.2, Map.run_append, Map.run_idle _ [.closeOpen] (by decide)]
+
+/-- **Layered with a file-backed user layer**, after any history followed by `reopen; flush; reopen`
+    through `Layered` (all three are forwarded): union with the user's map, no exclusion -/
+theorem layered_history_file (sys : List Dict) (ops : List Op) (hok : ∀ op ∈ ops, OpOk op) (k : Key) :
+    let m := Map.empty.run (ops.filter Layered.forwarded)
+    let r := Layered.lookupAll (sys ++ [toDict (Layered.runUser initFile (ops ++ settleOps))]) k .standard
+    (texts r).Nodup ∧
+    (∀ t, t ∈ texts r ↔ (∃ d ∈ sys, t ∈ texts (d.lookup k .standard)) ∨ ∃ v, m (k, t) = some v) ∧
+    (∀ t v, m (k, t) = some v → ∃ p ∈ r, p.text = t ∧ v.1 ≤ p.freq) := by
+  intro m r
+  have hok' : ∀ op ∈ ops.filter Layered.forwarded, OpOk op := fun op ho => hok op (List.mem_filter.mp ho).1
+  have hu : Layered.runUser initFile (ops ++ settleOps) = run initFile (ops.filter Layered.forwarded ++ settleOps) := by
+    rw [layered_runUser, List.filter_append]
+    rfl
+  obtain ⟨habs, ha⟩ := adoption_answers (ops.filter Layered.forwarded) hok'
+  have hlk : IsLookup m k (lookupAll (Layered.runUser initFile (ops ++ settleOps)) k .standard) := by
+    have := ha.lookup k
+    rw [habs, ← hu] at this; exact this
+  exact layered_over_map sys _ m k hlk
+
+/-- F36 on an in-memory dictionary, exactly: with no persisted layer the prefix lookup degenerates to
+    the exact lookup of the query (pending entries are only ever matched by their exact key) -/
+theorem mem_fuzzy_is_exact (s : State) (h : MemInv s) (q : Key) :
+    lookupAll s q .fuzzyPartialPrefix = lookupAll s q .standard := by
+  unfold TrieBuf.lookupAll entriesIterFor
+  rw [h.2.1]
+  rfl
 
 /-- the two classes are *transient*: whatever state a file-backed dictionary is in, they are left by
     `reopen; flush; reopen` -/
